@@ -343,6 +343,19 @@ func genOpenBuild(g *gen) {
 		}
 		emit(70000, 90, 1, cs)
 	}
+	// lists with repeated capabilities (same code and value more than once, adjacent and apart; three copies of a
+	// 100-byte capability that only fit once): the OPEN carries exactly what the plugin returned, or none is sent
+	for i := 0; i < 200; i++ {
+		base := g.pluginCaps(1+g.r.Intn(4), 12)
+		var cs []bgp.Capability
+		for k := 0; k < 2+g.r.Intn(5); k++ {
+			cs = append(cs, base[g.r.Intn(len(base))])
+		}
+		emit(pick(g, asChoices...), 90, g.r.Uint32(), cs)
+	}
+	big := bgp.Capability{Code: 73, Value: g.bytes(100)}
+	emit(65001, 90, 1, []bgp.Capability{big, big, big})
+	emit(65001, 90, 1, []bgp.Capability{big, big})
 	for n := 0; n <= 40; n++ {
 		emit(pick(g, asChoices...), pick[uint16](g, 0, 3, 90, 65535), g.r.Uint32(), g.pluginCaps(n, 300))
 		emit(pick(g, asChoices...), pick[uint16](g, 0, 3, 90, 65535), g.r.Uint32(), g.pluginCaps(n, 4))
